@@ -385,10 +385,10 @@ func (r *relation) completeView(view string, seq []string, held []string, upTo [
 	for _, id := range held {
 		want := desc[id] && (limit == nil || limit[id])
 		if want && !in[id] {
-			return fmt.Errorf("%s (rooted at %s) lacks held change %s which descends from its root: %s", view, r.short(root), r.short(id), r.show(seq))
+			return fmt.Errorf("view well-formedness: %s (rooted at %s) lacks held change %s which descends from its root: %s", view, r.short(root), r.short(id), r.show(seq))
 		}
 		if !want && in[id] && limit != nil {
-			return fmt.Errorf("%s (rooted at %s) contains %s which is not an ancestor of the requested heads: %s", view, r.short(root), r.short(id), r.show(seq))
+			return fmt.Errorf("view well-formedness: %s (rooted at %s) contains %s which is not an ancestor of the requested heads: %s", view, r.short(root), r.short(id), r.show(seq))
 		}
 	}
 	for _, id := range seq {
